@@ -13,6 +13,17 @@ impl From<BTreeMap<Abstraction, Histogram>> for Decomp {
     }
 }
 
+#[cfg(robopoker_verif)]
+impl Decomp {
+    /// verification hook: (from, into, density bits) in table order
+    pub fn verif_entries(&self) -> Vec<(i64, i64, u32)> {
+        self.0
+            .iter()
+            .flat_map(|(from, h)| h.support().map(move |into| (i64::from(*from), i64::from(*into), h.density(into).to_bits())))
+            .collect()
+    }
+}
+
 #[cfg(feature = "native")]
 impl crate::save::upload::Table for Decomp {
     fn name() -> String {
